@@ -22,7 +22,7 @@ pub fn runs(prop: &str, tier: Tier) -> u64 {
 fn big(r: &mut Rng, p: &mut Profile, tier: Tier) {
     // occasionally a large pool: leaf / branch splits, merges, multi-page free lists
     let odds = if tier == Tier::Thorough { 5 } else { 8 };
-    if r.chance(1, odds) { p.pool = (300, 1500); p.batch = (100, 700); p.steps = (2, 6); p.big_pct = 3; p.session_proves = 6; }
+    if r.chance(1, odds) { p.pool = (300, 1500); p.batch = (100, 700); p.steps = (2, 6); p.big_pct = 3; p.session_proves = 6; if r.chance(1, 2) { p.fat_pct = 75; p.batch = (300, 900); } }
     if tier == Tier::Thorough && r.chance(1, 60) { p.pool = (3000, 6000); p.batch = (1500, 4000); p.steps = (3, 7); p.big_pct = 1; }
 }
 
@@ -233,6 +233,15 @@ pub fn make(prop: &str, tier: Tier, seed: u64) -> Scenario {
             let mut s = gen_history(prop, seed, p, c);
             // hash tables of one meta-map page keep recovery's write order deterministic (DESIGN §3a)
             if s.opts.buckets > 4096 { s.opts.buckets = 4096; for st in s.steps.iter_mut() { if let Step::Reopen { opts } = st { opts.buckets = 4096; } } }
+            // sometimes the target is a deletion-only commit (WAL with cleared pages and no fresh
+            // bucket; emptied leaves), deleting most or all of what exists
+            if r.chance(1, 4) {
+                let mut present: std::collections::BTreeSet<K> = Default::default();
+                for st in &s.steps { if let Step::Commit { batch, .. } = st { for (k, a) in &batch.items { match a { Act::Write(Some(_)) | Act::Rtw(Some(_)) => { present.insert(*k); } Act::Write(None) | Act::Rtw(None) => { present.remove(k); } _ => {} } } } }
+                let all = r.chance(1, 2);
+                let items: Vec<(K, Act)> = present.iter().filter(|_| all || r.chance(3, 4)).map(|k| (*k, Act::Write(None))).collect();
+                if !items.is_empty() { s.steps.push(Step::Commit { batch: Batch { items, ..Default::default() }, nonblocking: false }); }
+            }
             // target: a mutating step (commit / overlay commit / rollback / reopen), preferably late
             let cands: Vec<usize> = s.steps.iter().enumerate().filter(|(_, st)| matches!(st, Step::Commit { .. } | Step::OvCommit { .. } | Step::Rollback { .. } | Step::Reopen { .. })).map(|(i, _)| i).collect();
             let target = if cands.is_empty() { 0 } else if r.chance(2, 3) { *cands.last().unwrap() } else { *r.pick(&cands) };
